@@ -240,27 +240,56 @@ func ProtoMonitor(sc *Scenario, w *World, x *Exec) []Violation {
 				if st.newDeliv < 0 {
 					continue // the server never saw it
 				}
-				// when did the stream end at the server? handler return, or at once for
-				// rejected streams (no handler ran)
-				endStep, handlerRan := -1, false
-				for _, e := range w.Events {
-					if e.Actor == "handler:"+st.script && st.script != "" {
-						if e.Op == "invoked" {
-							handlerRan = true
-						}
-						if e.Op == "returned" {
-							endStep = e.Step
-						}
-					}
-				}
+				// The close frame is emitted by a thread started when the stream ends. It is
+				// required whenever that happened, and had time to complete, before anything
+				// started to take the tunnel down: i.e. the handler thread and all threads it
+				// started finished before the teardown mark. In executions without any fault
+				// the teardown mark is the scenario's clean close, which waits for every
+				// per-RPC thread, so there the rule covers rejected streams too.
 				tdStep := 1 << 60
 				if teardown < 1<<60 {
 					tdStep = w.Tap.Frames[teardown].Step
 				}
-				if st.closes == 0 && w.Vals["proto:skip-close-check"] == nil {
-					ended := handlerRan && endStep >= 0 && endStep < tdStep
-					if ended && !x.Hang && !x.StepCap {
-						bad("exactly-one-close", "s2c:no-close-frame", fmt.Sprintf("%s: stream %d (script %s) ended at step %d, before the tunnel went down (step %d), but no close frame was emitted", ms.Name, st.id, st.script, endStep, tdStep))
+				faulted := false
+				for _, e := range w.Events {
+					if e.Actor == "fault" {
+						faulted = true
+						if e.Step < tdStep {
+							tdStep = e.Step
+						}
+					}
+				}
+				if x.Ticks > 0 {
+					faulted = true
+				}
+				hthread := ""
+				for _, e := range w.Events {
+					if e.Actor == "handler:"+st.script && st.script != "" && e.Op == "invoked" {
+						hthread = e.Thread
+					}
+				}
+				if st.closes == 0 && w.Vals["proto:skip-close-check"] == nil && !x.Hang && !x.StepCap {
+					required := false
+					if hthread != "" {
+						required = true
+						for _, th := range w.S.Threads {
+							if th.Name == hthread || strings.HasPrefix(th.Name, hthread+"/") {
+								if !th.Done || th.DoneStep < 0 || th.DoneStep >= tdStep {
+									required = false
+								}
+							}
+						}
+					} else if !faulted {
+						cleanClose := false
+						for _, e := range w.Events {
+							if e.Actor == "env" && e.Op == "clean-close" && e.Step <= tdStep {
+								cleanClose = true
+							}
+						}
+						required = cleanClose && st.newDeliv < tdStep
+					}
+					if required {
+						bad("exactly-one-close", "s2c:no-close-frame", fmt.Sprintf("%s: stream %d (script %q) ended, and every thread serving it finished, before the tunnel went down (step %d), but no close frame was emitted", ms.Name, st.id, st.script, tdStep))
 					}
 				}
 				handlerEnded := strings.Contains(st.closeBy, "createStream#") || strings.Contains(st.closeBy, "serveStream")
